@@ -232,6 +232,11 @@ func genC19(seed uint64, tier string) *Scenario {
 	if tier == "thorough" {
 		n = r.Range(2, 16)
 	}
+	if cfg.Throttle != nil && r.Chance(1, 3) {
+		rtGenStorm(r, s, &cfg, tier)
+		s.Ext = map[string]rawJSON{"retry": ExtJSON(cfg)}
+		return s
+	}
 	spacing := int64(core.Pick(r, 0, 0, 1000000, 1000000000, 300000000000, 300000000000))
 	eff := min(cfg.Policy.MaxAttempts, 5)
 	if cfg.MaxCallAttempts >= 2 {
@@ -255,6 +260,43 @@ func genC19(seed uint64, tier string) *Scenario {
 	}
 	s.Ext = map[string]rawJSON{"retry": ExtJSON(cfg)}
 	return s
+}
+
+// rtGenStorm: several unary RPCs on one channel whose attempts fail (or
+// succeed) at the same virtual instant while the bucket is within a few tokens
+// of the threshold. The throttling decision of each failure must be the one for
+// the bucket value left by ITS removal in some order of the simultaneous
+// outcomes (the token ledger tries every order); a removal and a decision that
+// are not one atomic step (seeded change C19b) give decisions that no order
+// explains. Handlers hold for the same time so that all attempts are in flight
+// before the first one ends and the trailers reach the client together.
+func rtGenStorm(r *core.Rand, s *Scenario, cfg *rtCfg, tier string) {
+	cfg.Throttle = &rtThrottle{
+		MaxMilli:   int64(core.Pick(r, 2000, 3000, 4000, 4000, 5000, 6000, 10000)),
+		RatioMilli: int64(core.Pick(r, 250, 500, 1000, 2000)),
+	}
+	cfg.MaxCallAttempts = 0
+	k := r.Range(3, 8)
+	if tier == "thorough" {
+		k = r.Range(3, 12)
+	}
+	hold := int64(core.Pick(r, 0, 1000, 1000000, 1000000, 50000000))
+	held := func(ops ...Op) []Op {
+		if hold > 0 {
+			return append([]Op{{Op: "sleep", Ns: hold}}, ops...)
+		}
+		return ops
+	}
+	for i := 0; i < k; i++ {
+		rpc := RPC{ID: uint32(i + 1)}
+		rpc.Client = []Op{{Op: "send", N: core.Pick(r, 0, 1, 100)}, {Op: "close_send"}, {Op: "recv_all"}}
+		for j := core.Pick(r, 1, 1, 1, 2, 0); j > 0; j-- {
+			c := cfg.Policy.Codes[r.Intn(len(cfg.Policy.Codes))]
+			rpc.Server = append(rpc.Server, held(Op{Op: "return", Code: c, Msg: "scripted failure"}))
+		}
+		rpc.Server = append(rpc.Server, held(Op{Op: "recv_all"}))
+		s.RPCs = append(s.RPCs, rpc)
+	}
 }
 
 // ---- C18: bounded, policy-driven retries with exact replay ----
